@@ -7,7 +7,8 @@
    read off collect_loc_rib_paths, [id_of t net] the destination id of a live
    prefix, [step_t t o] / [step_cs t o] the table and the notifications produced
    by one operation, [consume app t s ops] runs a history and folds every
-   notification into a consumer, [consistent ops] (a Source token always denotes
+   notification into a consumer, [startup_deferral t ops] (start_deferral is issued
+   only while the family holds no route), [consistent ops] (a Source token always denotes
    the same remote address) and [bounded t ops] (fewer than 2^24 destinations in
    the shard whenever an operation starts: the allocator's own debug_assert). *)
 From Coq Require Import List NArith ZArith Bool.
@@ -85,38 +86,38 @@ Check skip_flags_sound :
     /\ (c_any_changed c = false -> elig_of t (c_net c) = elig_of (step_t t o) (c_net c)).
 Print Assumptions skip_flags_sound.
 
-(* A prefix for which an operation emits no notification keeps its eligible list;
-   the only exception is an insert held back by deferral, and then the list is not
-   empty (so end_deferral announces it). *)
+(* When the family is not deferring, a prefix for which an operation emits no
+   notification keeps its eligible list. *)
 Theorem silent_prefix_unchanged :
   forall shard ops o net,
     consistent (ops ++ [o]) ->
     let t := run (empty_table shard) ops in
+    t_deferring t = false ->
     (forall c, In c (step_cs t o) -> c_net c <> net) ->
-    elig_of t net = elig_of (step_t t o) net
-    \/ (t_deferring t = true /\ t_deferring (step_t t o) = true /\ elig_of (step_t t o) net <> []).
+    elig_of t net = elig_of (step_t t o) net.
 Proof. exact C06_silent_prefix_unchanged. Qed.
 Check silent_prefix_unchanged :
   forall shard ops o net,
     consistent (ops ++ [o]) ->
     let t := run (empty_table shard) ops in
+    t_deferring t = false ->
     (forall c, In c (step_cs t o) -> c_net c <> net) ->
-    elig_of t net = elig_of (step_t t o) net
-    \/ (t_deferring t = true /\ t_deferring (step_t t o) = true /\ elig_of (step_t t o) net <> []).
+    elig_of t net = elig_of (step_t t o) net.
 Print Assumptions silent_prefix_unchanged.
 
-(* Folding every notification of any history (deferral periods included, wherever
-   they start) gives exactly collect_loc_rib_paths, whenever the table is not deferring. *)
+(* Folding every notification of any history in which start_deferral is issued only
+   on an empty family gives exactly collect_loc_rib_paths whenever the family is not
+   deferring (in particular right after end_deferral). *)
 Theorem fold_all_changes_eq_locrib :
   forall shard ops,
-    consistent ops ->
+    consistent ops -> startup_deferral (empty_table shard) ops ->
     let t := run (empty_table shard) ops in
     t_deferring t = false ->
     forall net, snd (consume full_apply (empty_table shard) (fun _ => []) ops) net = locrib_view t net.
 Proof. exact C06_fold_all_changes_eq_locrib. Qed.
 Check fold_all_changes_eq_locrib :
   forall shard ops,
-    consistent ops ->
+    consistent ops -> startup_deferral (empty_table shard) ops ->
     let t := run (empty_table shard) ops in
     t_deferring t = false ->
     forall net, snd (consume full_apply (empty_table shard) (fun _ => []) ops) net = locrib_view t net.
@@ -126,7 +127,7 @@ Print Assumptions fold_all_changes_eq_locrib.
    the content of every prefix's best path. *)
 Theorem best_only_consumer_correct :
   forall shard ops,
-    consistent ops ->
+    consistent ops -> startup_deferral (empty_table shard) ops ->
     let t := run (empty_table shard) ops in
     t_deferring t = false ->
     forall net, snd (consume best_apply (empty_table shard) (fun _ => None) ops) net
@@ -134,7 +135,7 @@ Theorem best_only_consumer_correct :
 Proof. exact C06_best_only_consumer_correct. Qed.
 Check best_only_consumer_correct :
   forall shard ops,
-    consistent ops ->
+    consistent ops -> startup_deferral (empty_table shard) ops ->
     let t := run (empty_table shard) ops in
     t_deferring t = false ->
     forall net, snd (consume best_apply (empty_table shard) (fun _ => None) ops) net
@@ -145,7 +146,7 @@ Print Assumptions best_only_consumer_correct.
    notifications flagged any_changed = false still holds the first n eligible paths. *)
 Theorem addpath_consumer_correct :
   forall shard ops n,
-    consistent ops ->
+    consistent ops -> startup_deferral (empty_table shard) ops ->
     let t := run (empty_table shard) ops in
     t_deferring t = false ->
     forall net, snd (consume (addpath_apply n) (empty_table shard) (fun _ => limit n []) ops) net
@@ -153,27 +154,27 @@ Theorem addpath_consumer_correct :
 Proof. exact C06_addpath_consumer_correct. Qed.
 Check addpath_consumer_correct :
   forall shard ops n,
-    consistent ops ->
+    consistent ops -> startup_deferral (empty_table shard) ops ->
     let t := run (empty_table shard) ops in
     t_deferring t = false ->
     forall net, snd (consume (addpath_apply n) (empty_table shard) (fun _ => limit n []) ops) net
                 = limit n (locrib_view t net).
 Print Assumptions addpath_consumer_correct.
 
-(* end_deferral clears the flag and returns collect_loc_rib_paths: one notification
-   per prefix that has an eligible path, no other, each with the full list, the
-   prefix's id and both flags set. *)
+(* end_deferral clears the flag and reports every destination exactly once, with its
+   eligible list (an empty list is a withdrawal), its id and both flags set; folding
+   these reports alone gives the whole Loc-RIB. *)
 Theorem end_deferral_emits_all :
   forall shard ops,
     let t := run (empty_table shard) ops in
     let t' := step_t t EndDeferral in
     let cs := step_cs t EndDeferral in
     t_deferring t' = false
-    /\ cs = loc_rib t' None
     /\ NoDup (map c_net cs)
-    /\ (forall net, (exists c, In c cs /\ c_net c = net) <-> elig_of t' net <> [])
+    /\ (forall net, (exists c, In c cs /\ c_net c = net) <-> id_of t' net <> None)
     /\ (forall c, In c cs -> c_paths c = elig_of t' (c_net c) /\ id_of t' (c_net c) = Some (c_dest_id c)
-                             /\ c_best_changed c = true /\ c_any_changed c = true).
+                             /\ c_best_changed c = true /\ c_any_changed c = true)
+    /\ (forall net, fold_left full_apply cs (fun _ => []) net = locrib_view t' net).
 Proof. exact C06_end_deferral_emits_all. Qed.
 Check end_deferral_emits_all :
   forall shard ops,
@@ -181,39 +182,31 @@ Check end_deferral_emits_all :
     let t' := step_t t EndDeferral in
     let cs := step_cs t EndDeferral in
     t_deferring t' = false
-    /\ cs = loc_rib t' None
     /\ NoDup (map c_net cs)
-    /\ (forall net, (exists c, In c cs /\ c_net c = net) <-> elig_of t' net <> [])
+    /\ (forall net, (exists c, In c cs /\ c_net c = net) <-> id_of t' net <> None)
     /\ (forall c, In c cs -> c_paths c = elig_of t' (c_net c) /\ id_of t' (c_net c) = Some (c_dest_id c)
-                             /\ c_best_changed c = true /\ c_any_changed c = true).
+                             /\ c_best_changed c = true /\ c_any_changed c = true)
+    /\ (forall net, fold_left full_apply cs (fun _ => []) net = locrib_view t' net).
 Print Assumptions end_deferral_emits_all.
 
-(* While deferring, an insert reports nothing, except the withdrawal of a prefix
-   whose last eligible path it takes away (repaired behaviour, repo commit bab1d07). *)
-Theorem deferred_insert_reports_only_withdrawal :
-  forall shard ops s net rpid nh a filt nhinv lim,
+(* While the family is deferring no mutator (insert, remove, drop, purges, stale
+   marking, next-hop flips) reports anything. *)
+Theorem quiet_while_deferring :
+  forall shard ops o,
     let t := run (empty_table shard) ops in
-    t_deferring t = true ->
-    step_cs t (Insert s net rpid nh a filt nhinv lim) = []
-    \/ exists c, step_cs t (Insert s net rpid nh a filt nhinv lim) = [c]
-                 /\ c_net c = net /\ c_paths c = [] /\ elig_of t net <> []
-                 /\ elig_of (step_t t (Insert s net rpid nh a filt nhinv lim)) net = [].
-Proof. exact C06_deferred_insert_reports_only_withdrawal. Qed.
-Check deferred_insert_reports_only_withdrawal :
-  forall shard ops s net rpid nh a filt nhinv lim,
+    t_deferring t = true -> o <> EndDeferral -> step_cs t o = [].
+Proof. exact C06_quiet_while_deferring. Qed.
+Check quiet_while_deferring :
+  forall shard ops o,
     let t := run (empty_table shard) ops in
-    t_deferring t = true ->
-    step_cs t (Insert s net rpid nh a filt nhinv lim) = []
-    \/ exists c, step_cs t (Insert s net rpid nh a filt nhinv lim) = [c]
-                 /\ c_net c = net /\ c_paths c = [] /\ elig_of t net <> []
-                 /\ elig_of (step_t t (Insert s net rpid nh a filt nhinv lim)) net = [].
-Print Assumptions deferred_insert_reports_only_withdrawal.
+    t_deferring t = true -> o <> EndDeferral -> step_cs t o = [].
+Print Assumptions quiet_while_deferring.
 
 (* The add-path consumer with a window of m paths holds exactly what
    collect_loc_rib_paths_limited(m) returns. *)
 Theorem addpath_window_eq_limited :
   forall shard ops m,
-    consistent ops ->
+    consistent ops -> startup_deferral (empty_table shard) ops ->
     let t := run (empty_table shard) ops in
     t_deferring t = false ->
     forall net, snd (consume (addpath_apply (Some (N.to_nat m))) (empty_table shard) (fun _ => []) ops) net
@@ -221,7 +214,7 @@ Theorem addpath_window_eq_limited :
 Proof. exact C06_addpath_window_eq_limited. Qed.
 Check addpath_window_eq_limited :
   forall shard ops m,
-    consistent ops ->
+    consistent ops -> startup_deferral (empty_table shard) ops ->
     let t := run (empty_table shard) ops in
     t_deferring t = false ->
     forall net, snd (consume (addpath_apply (Some (N.to_nat m))) (empty_table shard) (fun _ => []) ops) net
@@ -257,6 +250,36 @@ Check replaced_path_id_sound :
         forall old, In old (entries_of t net) -> ekey old <> (s_addr s, rpid)
     end.
 Print Assumptions replaced_path_id_sound.
+
+(* Local path ids are pairwise distinct inside every destination. *)
+Theorem lpids_unique :
+  forall shard ops net, NoDup (map e_lpid (entries_of (run (empty_table shard) ops) net)).
+Proof. exact C06_lpids_unique. Qed.
+Check lpids_unique :
+  forall shard ops net, NoDup (map e_lpid (entries_of (run (empty_table shard) ops) net)).
+Print Assumptions lpids_unique.
+
+(* A path that stays in a prefix's list under the same local path id keeps its
+   content unless the notification names that id in replaced_path_id: an exporter
+   that re-sends only ids new to it and the named one stays in step with the RIB. *)
+Theorem delta_exporter_sound :
+  forall shard ops o c e e',
+    consistent (ops ++ [o]) ->
+    let t := run (empty_table shard) ops in
+    In c (step_cs t o) ->
+    In e (elig_of t (c_net c)) -> In e' (c_paths c) ->
+    e_lpid e = e_lpid e' -> c_replaced c <> Some (e_lpid e') ->
+    content e = content e'.
+Proof. exact C06_delta_exporter_sound. Qed.
+Check delta_exporter_sound :
+  forall shard ops o c e e',
+    consistent (ops ++ [o]) ->
+    let t := run (empty_table shard) ops in
+    In c (step_cs t o) ->
+    In e (elig_of t (c_net c)) -> In e' (c_paths c) ->
+    e_lpid e = e_lpid e' -> c_replaced c <> Some (e_lpid e') ->
+    content e = content e'.
+Print Assumptions delta_exporter_sound.
 
 (* IdAllocator::alloc returns the lowest local id that is not in use. *)
 Theorem alloc_lowest_free :
